@@ -105,12 +105,37 @@ typedef struct worker {
     psX509Cert_t *cert;     /* private parsed copy of the server certificate (validated against the shared CA list) */
     psX509Cert_t *revcert;  /* private parsed copy of the revoked certificate */
     op_t *cur;
+    ssl_t *gap_ssl;         /* server session of the handshake this thread is driving (NewSessionTicket failpoint) */
     long apicalls, yields, sleeps;
     uint32_t period;        /* service threads */
     pthread_t tid;
 } worker_t;
 
 static __thread worker_t *tls_w;
+
+/* ---- failpoint between "the TLS 1.3 server decided to issue a ticket" (tls13Decode.c, client Finished accepted, ticket keys
+ * present) and "the ticket is written" (tls13WriteNewSessionTicket, which starts by drawing ticket_age_add from psGetPrng).
+ * In --empty runs a worker that arrives here now and then stays for a moment and tells the rotator, which empties the key
+ * list right then: the interleaving "last key deleted after the decision" becomes frequent instead of one run in thousands.
+ * The rotator stays the only thread that changes the list; no lock is held by the library at this point. */
+static int g_in_gap;            /* relaxed atomic: workers waiting at the failpoint */
+static uint32_t g_empty_gen;    /* relaxed atomic: times the rotator has emptied the list */
+static uint32_t g_gap_hits, g_gap_served;   /* relaxed atomics: failpoint visits that waited / that saw an emptying while waiting */
+int32_t __real_psGetPrng(psRandom_t *ctx, unsigned char *bytes, psSize_t size, void *userPtr);
+int32_t __wrap_psGetPrng(psRandom_t *ctx, unsigned char *bytes, psSize_t size, void *userPtr)
+{
+    worker_t *w = tls_w;
+    if (g_empty && w && w->gap_ssl && w->gap_ssl->hsState == SSL_HS_TLS_1_3_SEND_NST && (vf_next(&w->rng) & 3) == 0) {
+        uint32_t g0 = __atomic_load_n(&g_empty_gen, __ATOMIC_RELAXED);
+        __atomic_add_fetch(&g_gap_hits, 1, __ATOMIC_RELAXED);
+        __atomic_add_fetch(&g_in_gap, 1, __ATOMIC_RELAXED);
+        for (int spin = 0; spin < 60 && __atomic_load_n(&g_empty_gen, __ATOMIC_RELAXED) == g0; spin++) { struct timespec ts = { 0, 100000 }; nanosleep(&ts, NULL); }
+        __atomic_sub_fetch(&g_in_gap, 1, __ATOMIC_RELAXED);
+        if (__atomic_load_n(&g_empty_gen, __ATOMIC_RELAXED) != g0) __atomic_add_fetch(&g_gap_served, 1, __ATOMIC_RELAXED);
+        w->gap_ssl = NULL;      /* once per handshake */
+    }
+    return __real_psGetPrng(ctx, bytes, size, userPtr);
+}
 
 static inline void jit(worker_t *w)
 {
@@ -341,6 +366,7 @@ static void op_handshake(worker_t *w, lc_t *lc, int mode)
 
     jit(w);
     int rc = matrixSslNewServerSession(&S.ssl, g_skeys, lc->cauth ? cert_cb : NULL, &so);
+    w->gap_ssl = rc >= 0 ? S.ssl : NULL;
     if (rc < 0) { o->rc_s = rc; S.ssl = NULL; goto out; }
     jit(w);
     rc = matrixSslNewClientSession(&C.ssl, g_ckeys, lc->sid, cs, 1, cert_cb, NULL, NULL, NULL, &co);
@@ -399,6 +425,7 @@ out:
     o->srv_dead = S.dead; o->cli_dead = C.dead;
     o->cli_alert = C.nAlertIn ? (uint8_t) C.alertDesc : 0xff; o->srv_alert = S.nAlertIn ? (uint8_t) S.alertDesc : 0xff;
     jit(w); ep_free(&C);
+    w->gap_ssl = NULL;
     jit(w); ep_free(&S);
     snap_cred(lc, &o->iss_id, &o->iss_tk, &o->iss_psk, &o->iss_sec, o->iss_key, &o->iss_haskey);
     o->ret = stamp();
@@ -574,6 +601,7 @@ static int pace_ex(worker_t *w, uint32_t *last, int watch_tcb)
         uint32_t d = __atomic_load_n(&g_done_ops, __ATOMIC_RELAXED);
         if (d - *last >= w->period) { *last = d; return 1; }
         if (watch_tcb && __atomic_load_n(&g_in_tcb, __ATOMIC_RELAXED) >= 2) return 2;   /* two resumptions inside the callback now */
+        if (g_empty && __atomic_load_n(&g_in_gap, __ATOMIC_RELAXED) > 0) return 3;          /* a server sits between ticket decision and ticket write */
         /* back off while the workers make no progress, so that a deadlocked run is idle (the driver's progress watchdog
            looks at the CPU time of the process) */
         if (d != seen) { seen = d; ns = 200000; } else if (ns < 50000000) ns *= 2;
@@ -638,7 +666,8 @@ static void *rotator_main(void *arg)
             }
             if (pc == 2) { struct timespec ts = { 0, 300000 }; nanosleep(&ts, NULL); continue; }   /* woken by the watch only */
         }
-        if (g_empty && nlive >= 1 && r >= 90 && r < 97) {
+        if (pc == 3 && nlive == 0) { struct timespec ts = { 0, 300000 }; nanosleep(&ts, NULL); continue; }   /* nothing to delete: let the waiter go */
+        if (g_empty && nlive >= 1 && (pc == 3 || (r >= 90 && r < 97))) {
             /* empty the list, newest first; it is refilled one pacing period later */
             while (nlive > 0) {
                 op_t *o = op_new(w, C_TKDEL); if (!o) return NULL;
@@ -649,6 +678,8 @@ static void *rotator_main(void *arg)
                 if (o->rc != 0) break;
                 nlive--;
             }
+            if (nlive == 0) __atomic_add_fetch(&g_empty_gen, 1, __ATOMIC_RELAXED);
+            if (pc == 3) { struct timespec ts = { 0, 300000 }; nanosleep(&ts, NULL); }
             continue;
         }
         if (what == 0) { if (tk_add(w, serial) == 0) live[nlive++] = serial; serial++; continue; }
@@ -884,9 +915,9 @@ int main(int argc, char **argv)
 
     /* ---- single-threaded from here on ---- */
     long total = 0, api = 0, yl = 0, sl = 0;
-    char hdr[256];
-    int n = snprintf(hdr, sizeof hdr, "{\"t\":\"run\",\"seed\":%llu,\"threads\":%d,\"ops\":%d,\"have_ec\":%d,\"ncrl\":%d,\"rot_period\":%u,\"crl_period\":%u,\"empty\":%d}\n",
-                     (unsigned long long) vf_seed, g_nthreads, g_nops, g_have_ec, g_ncrl, W[g_nthreads].period, W[g_nthreads + 1].period, g_empty);
+    char hdr[384];
+    int n = snprintf(hdr, sizeof hdr, "{\"t\":\"run\",\"seed\":%llu,\"threads\":%d,\"ops\":%d,\"have_ec\":%d,\"ncrl\":%d,\"rot_period\":%u,\"crl_period\":%u,\"empty\":%d,\"gap_hits\":%u,\"gap_served\":%u}\n",
+                     (unsigned long long) vf_seed, g_nthreads, g_nops, g_have_ec, g_ncrl, W[g_nthreads].period, W[g_nthreads + 1].period, g_empty, g_gap_hits, g_gap_served);
     vf_write(hdr, n);
     for (int i = 0; i < nw; i++) {
         for (int k = 0; k < W[i].nops; k++) dump_op(&W[i].ops[k]);
